@@ -191,6 +191,14 @@ long vg_in_size, vg_in_pos;
 size_t vg_in_at;
 unsigned char vg_in_byte;
 #define VG_IN_OK  (0 <= vg_in_pos && vg_in_pos <= vg_in_size && vg_in_size <= VCAP)
+/* Bounded (tier B) units define VERIF_IN_MAXCALLS=N: paths on which the input is delivered in more than N
+ * read()/fread() calls that return data are cut (assume), i.e. the bound is "at most N delivering calls". */
+unsigned vg_in_calls;
+#ifdef VERIF_IN_MAXCALLS
+# define VG_IN_COUNT_CALL()  do { __CPROVER_assume(vg_in_calls < VERIF_IN_MAXCALLS); vg_in_calls++; } while (0)
+#else
+# define VG_IN_COUNT_CALL()  do { vg_in_calls++; } while (0)
+#endif
 
 /* n bytes at p become arbitrary input bytes.  As in vg_ghost_copy the whole OBJECT is havocked (cheap) and
  * the bytes the proof follows are put back: the object's bytes at the ghost offsets vg_k / vg_k2 when they lie
@@ -266,6 +274,7 @@ size_t fread(void *ptr, size_t size, size_t nmemb, FILE *fp)
     size_t r = nondet_size_t();
     __CPROVER_assume(r <= nmemb && r <= avail / size);
     size_t whole = r * size, used = whole;
+    if (r > 0) VG_IN_COUNT_CALL();
     if (r < nmemb) {
         if (avail - whole < size && nondet_bool()) {
             vg_in_eof = 1;                       /* end of input; a trailing partial item is consumed */
@@ -306,6 +315,7 @@ ssize_t read(int fd, void *buf, size_t n)
     if (avail == 0) return 0;
     size_t r = nondet_size_t();
     __CPROVER_assume(1 <= r && r <= n && r <= avail);
+    VG_IN_COUNT_CALL();
     vg_in_deliver((unsigned char *) buf, r);
     return (ssize_t) r;
 }
